@@ -22,6 +22,8 @@ func main() {
 		runCases(os.Args[2:])
 	case "stress":
 		runStress(os.Args[2:])
+	case "det-child":
+		runDetChild(os.Args[2], os.Args[3:])
 	case "hostile-child":
 		var idx int
 		fmt.Sscan(os.Args[3], &idx)
